@@ -61,7 +61,13 @@ func main() {
 		return
 	}
 	if *dump != "" {
-		doDump(*dump, *repo, *verif)
+		dov := map[string][]byte{}
+		for f, r := range ov {
+			if b, err := os.ReadFile(r); err == nil {
+				dov[filepath.Join(*repo, f)] = b
+			}
+		}
+		doDump(*dump, *repo, *verif, dov)
 		return
 	}
 	if *replay != "" {
@@ -200,12 +206,12 @@ func (c *Ctx) selfValidate() {
 	fmt.Printf("self-validation (mutants of the current tree, informational): %v\n", counts)
 }
 
-func doDump(spec, repo, verif string) {
+func doDump(spec, repo, verif string, overlay map[string][]byte) {
 	i := strings.Index(spec, ":")
 	rel, name := spec[:i], spec[i+1:]
 	p := &Property{ID: "DUMP", Patterns: []string{"./" + rel}}
 	c := &Ctx{Prop: p, Tier: "quick", RepoDir: repo, VerifDir: verif, oblIdx: map[string]*Obligation{}, Stats: map[string]int{}, Tables: map[string]interface{}{}, GOARCH: "amd64", Fset: token.NewFileSet()}
-	if err := c.load(nil); err != nil {
+	if err := c.load(overlay); err != nil {
 		fmt.Println("FATAL:", err)
 		return
 	}
